@@ -155,7 +155,7 @@ func init() {
 	mutant("continuation-other-stream-ok", "continuation-sequencing", "serverConn.go", "if fr.Type() != FrameContinuation || fr.Stream() != expectContinuation {", "if fr.Type() != FrameContinuation {")
 	mutant("stray-continuation-forwarded", "continuation-sequencing", "serverConn.go", "		} else if fr.Type() == FrameContinuation {\n			sc.writeGoAway(0, ProtocolError, \"unexpected CONTINUATION frame\")\n			ReleaseFrameHeader(fr)\n			return errConnClosed\n		} else if", "		} else if")
 	mutant("even-stream-id-accepted", "read-loop-connection-errors", "serverConn.go", "	if fr.Stream()&1 == 0 {\n		return NewGoAwayError(ProtocolError, \"invalid stream id\")\n	}\n", "")
-	mutant("zero-window-update-ignored", "read-loop-connection-errors", "serverConn.go", "			if win == 0 {\n				sc.writeGoAway(0, ProtocolError, \"window increment of 0\")\n				ReleaseFrameHeader(fr)\n				return errConnClosed\n			}\n", "			_ = win\n")
+	mutant("zero-window-update-ignored", "read-loop-connection-errors", "serverConn.go", "			if win == 0 && fr.Stream() == 0 {\n				sc.writeGoAway(0, ProtocolError, \"window increment of 0\")\n				ReleaseFrameHeader(fr)\n				return errConnClosed\n			}\n", "			_ = win\n")
 	mutant("resolve-before-drop", "client-finish-order", "conn.go", "	if c.takeReq(stream) {\n		atomic.AddInt32(&c.openStreams, -1)\n	}\n\n	r.markFinished()\n	r.resolve(err)", "	r.markFinished()\n	r.resolve(err)\n\n	if c.takeReq(stream) {\n		atomic.AddInt32(&c.openStreams, -1)\n	}")
 	mutant("ctx-always-recycled", "client-finish-order", "client.go", "	if reuse {\n		releaseCtx(ctx)\n	}", "	_ = reuse\n	releaseCtx(ctx)")
 	mutant("push-ignored", "client-finish-order", "conn.go", "			c.setLastErr(NewGoAwayError(ProtocolError, \"server pushed with push disabled\"))\n			ReleaseFrameHeader(fr)\n\n			break", "			ReleaseFrameHeader(fr)\n\n			continue")
@@ -537,7 +537,7 @@ func init() {
 	mutant("stream-error-not-answered", "server-loop-shape", "serverConn.go", "		sc.resetStream(strm, streamErr.Code())\n", "")
 	mutant("incomplete-block-counts-as-finished", "server-loop-shape", "serverConn.go", "			strm.headersFinished = len(strm.previousHeaderBytes) == 0", "			strm.headersFinished = len(strm.previousHeaderBytes) >= 0")
 	mutant("pseudo-header-presence-conjunction", "server-loop-shape", "serverConn.go", "	if !strm.pseudoMethod || !strm.pseudoScheme || !strm.pseudoPath {", "	if !strm.pseudoMethod && !strm.pseudoScheme || !strm.pseudoPath {")
-	mutant("zero-window-increment-accepted", "server-loop-shape", "serverConn.go", "		if win == 0 {\n			return NewGoAwayError(ProtocolError, \"window increment of 0\")\n		}\n", "")
+	mutant("zero-window-increment-accepted", "server-loop-shape", "serverConn.go", "		if win == 0 {\n			return NewResetStreamError(ProtocolError, \"window increment of 0\")\n		}\n", "")
 	mutant("content-length-marker-unset", "server-loop-shape", "serverConn.go", "			strm.hasContentLength = true\n", "")
 	mutant("te-rule-disjunction", "server-loop-shape", "serverConn.go", "		if bytes.Equal(k, StringTE) && !bytes.Equal(v, StringTrailers) {", "		if bytes.Equal(k, StringTE) || !bytes.Equal(v, StringTrailers) {")
 	mutant("response-headers-without-end-headers", "server-loop-shape", "serverConn.go", "	if len(block) <= maxDataFrameSize {\n		h.SetEndHeaders(true)\n\n		sc.write(fr)", "	if len(block) <= maxDataFrameSize {\n		sc.write(fr)")
@@ -767,7 +767,7 @@ func init() {
 }
 
 func init() {
-	mutant("timed-out-stream-stays-in-the-table", "completion-closes-stream", "serverConn.go", "				strm.SetState(StreamStateClosed)\n				closeStream(strm)\n\n				deleteUntil--", "				strm.SetState(StreamStateClosed)\n\n				deleteUntil--")
+	mutant("timed-out-stream-stays-in-the-table", "completion-closes-stream", "serverConn.go", "				strm.SetState(StreamStateClosed)\n				closeStream(strm)\n			}\n\n			// Armed again", "				strm.SetState(StreamStateClosed)\n			}\n\n			// Armed again")
 	mutant("self-dependent-priority-on-unknown-stream-ignored", "unknown-stream-classification", "serverConn.go", "					if fr.Body().(*Priority).Stream() == fr.Stream() {\n						sc.writeGoAway(fr.Stream(), ProtocolError, \"stream that depends on itself\")\n						break loop\n					}\n", "")
 }
 
@@ -932,9 +932,6 @@ func init() {
 func init() {
 	mutant("stream-born-without-a-context", "stream-birth-and-timeout", "serverConn.go", "				sc.createStream(sc.c, fr.Type(), strm)\n", "")
 	mutant("stream-born-without-an-origin", "stream-birth-and-timeout", "serverConn.go", "	strm.origType = frameType\n", "")
-	mutant("timeout-arm-counts-up-while-dropping", "counted-loops-advance", "serverConn.go", "				closeStream(strm)\n\n				deleteUntil--", "				closeStream(strm)\n\n				deleteUntil++")
-	mutant("timeout-arm-drops-one-too-many", "stream-birth-and-timeout", "serverConn.go", "			for deleteUntil > 0 {", "			for deleteUntil >= 0 {")
-	mutant("timeout-arm-counts-past-a-stream-not-due", "stream-birth-and-timeout", "serverConn.go", "				if !isDue {\n					break\n				}", "				if !isDue {\n					continue\n				}")
 }
 
 func init() {
@@ -968,4 +965,22 @@ func init() {
 	mutant("stream-end-without-headers-is-a-response", "client-stuck-writes-bounded", "conn.go", "	if err == nil && !r.headersDone && c.endsStream(fr) {", "	if err == nil && !r.headersDone && c.endsStream(fr) && false {")
 	mutant("timed-out-context-goes-to-the-pool", "request-ctx-handoff", "serverConn.go", "			strm.handlerRunning = false\n\n			sc.detachTimedOut(strm)\n\n			if strm.abandoned {", "			strm.handlerRunning = false\n\n			if strm.abandoned {")
 	mutant("left-body-closed-under-a-timed-out-handler", "teardown-lets-go", "serverConn.go", "	if ctx.LastTimeoutErrorResponse() == nil {\n		_ = ctx.Response.CloseBodyStream()\n	}", "	_ = ctx.Response.CloseBodyStream()")
+}
+
+func init() {
+	mutant("interim-fields-reach-the-response", "client-block-state", "conn.go", "		if c.block.interim {\n			continue\n		}\n\n", "")
+	mutant("stream-limit-compared-in-32-bits", "no-stream-after-goaway", "conn.go", "	return int64(atomic.LoadInt32(&c.openStreams)) < int64(atomic.LoadUint32(&c.maxStreams))", "	return atomic.LoadInt32(&c.openStreams) < int32(atomic.LoadUint32(&c.maxStreams))")
+	mutant("complete-request-timed-out-under-its-handler", "stream-birth-and-timeout", "serverConn.go", "				if !strm.responded {\n					due = append(due, strm)\n				}", "				due = append(due, strm)")
+	mutant("timer-armed-for-a-stream-slow-to-answer", "stream-birth-and-timeout", "serverConn.go", "				if strm.origType != FrameHeaders || strm.responded {\n					continue\n				}", "				if strm.origType != FrameHeaders {\n					continue\n				}")
+	mutant("zero-increment-on-a-stream-ends-the-connection", "stream-offences-stay-on-the-stream", "serverConn.go", "			return NewResetStreamError(ProtocolError, \"window increment of 0\")", "			return NewGoAwayError(ProtocolError, \"window increment of 0\")")
+	mutant("zero-increment-on-a-stream-judged-by-the-read-loop", "read-loop-connection-errors", "serverConn.go", "			if win == 0 && fr.Stream() == 0 {", "			if win == 0 {")
+}
+
+func init() {
+	mutant("timeout-arm-searches-past-a-stream-not-due", "stream-birth-and-timeout", "serverConn.go", "				if !time.Now().After(strm.startedAt.Add(sc.maxRequestTime)) {\n					break\n				}", "				if !time.Now().After(strm.startedAt.Add(sc.maxRequestTime)) {\n					continue\n				}")
+}
+
+func init() {
+	mutant("idle-timer-cuts-requests-in-flight", "stream-birth-and-timeout", "serverConn.go", "			if len(strms) != 0 {\n				sc.maxIdleTimer.Reset(sc.maxIdleTime)\n\n				continue\n			}\n\n			sc.writeGoAway(0, NoError, \"connection has been idle for a long time\")", "			sc.writeGoAway(0, NoError, \"connection has been idle for a long time\")")
+	mutant("priority-self-dependency-ends-the-connection", "stream-offences-stay-on-the-stream", "serverConn.go", "			return NewResetStreamError(ProtocolError, \"stream that depends on itself\")", "			return NewGoAwayError(ProtocolError, \"stream that depends on itself\")")
 }
